@@ -141,6 +141,21 @@ Definition quote_sheet_name (name : list N) : list N :=
      || negb (forallb plain_char name)
   then [ch_apos] ++ double_apos name ++ [ch_apos] else name.
 
+(* utils::quote_sheet_span (commit "fix: a 3-D reference through several sheets …"): a span of sheets
+   First:Last in front of '!':
+     if quote_sheet_name(first) == first && quote_sheet_name(last) == last { format!("{first}:{last}") }
+     else { format!("'{}:{}'", first.replace('\'', "''"), last.replace('\'', "''")) } *)
+Fixpoint str_eqb (a b : list N) : bool :=
+  match a, b with
+  | [], [] => true
+  | x :: a', y :: b' => (x =? y) && str_eqb a' b'
+  | _, _ => false
+  end.
+Definition quote_sheet_span (first last : list N) : list N :=
+  if str_eqb (quote_sheet_name first) first && str_eqb (quote_sheet_name last) last
+  then first ++ [ch_colon] ++ last
+  else [ch_apos] ++ double_apos first ++ [ch_colon] ++ double_apos last ++ [ch_apos].
+
 (* SPEC (formula grammar, MS-XLS 2.2.2 / ECMA-376 Part 1 18.17: sheet-name): a sheet name stands
    bare in front of '!' when it is a word — first character a letter, '_' or a non-ASCII character,
    the other characters of the same kind, digits or '.' — and between apostrophes, its own apostrophes
@@ -152,6 +167,12 @@ Definition bare_sheet (s : list N) : bool :=
   match s with c :: t => word_start c && forallb word_char t | [] => false end.
 Definition sheet_text (s : list N) : list N :=
   if bare_sheet s then s else [ch_apos] ++ double_apos s ++ [ch_apos].
+(* SPEC: a 3-D reference through the sheets First … Last (formula grammar: sheet-range = sheet-name ":"
+   sheet-name): First:Last!A1 when both names are words, 'First:Last'!A1 — one pair of apostrophes around
+   the span, apostrophes inside doubled — as soon as one of them is not *)
+Definition span_text (first last : list N) : list N :=
+  if bare_sheet first && bare_sheet last then first ++ [ch_colon] ++ last
+  else [ch_apos] ++ double_apos first ++ [ch_colon] ++ double_apos last ++ [ch_apos].
 
 (* ------------------------------------------------------------------ error classes *)
 Definition E_STACKLEN : N := 10.
@@ -322,7 +343,9 @@ Variable show_f64 : N -> list N.       (* format!("{}", f64::from_bits(bits)) *)
 
 (* ================================================================== xls =========== *)
 Record xls_env := {
-  xe_sheets : list (list N);            (* fmla_sheet_names *)
+  xe_sheets : list (list N);            (* fmla_sheet_names: the BoundSheet8 names as stored (quoted at the
+                                           lookup, since the commit "fix: a 3-D reference through several
+                                           sheets …"; before: quoted once, and only itab_first was read) *)
   xe_names : list (list N);             (* defined names (name part only) *)
   xe_xtis : list (N * N * N);           (* (iSupBook, itabFirst, itabLast) as raw u16 *)
   xe_base : option (N * N)              (* base: Option<(u32, u32)> — the cell using a shared formula
@@ -341,17 +364,22 @@ Definition rel_ref (row col : N) (base : N * N) : N * N :=
   let c := if bit14 col then (col mod 256 + snd base) mod 256 else N.land col 16383 in
   (row', col_field c (bit15 col) (bit14 col)).
 
-(*  xtis.get(ixti).and_then(|xti| sheets.get(xti.itab_first as usize)).map_or("#REF", …)
-    itab_first is an i16: a negative value becomes a huge usize, never a valid index *)
+(*  fn xti_sheets(xti: Option<&Xti>, sheets: &[String]) -> String {
+      let names = xti.map(|xti| (sheets.get(xti.itab_first as usize), sheets.get(xti.itab_last as usize),
+                                 xti.itab_first != xti.itab_last));
+      match names { Some((Some(first), Some(last), true)) => quote_sheet_span(first, last),
+                    Some((Some(first), _, _)) => quote_sheet_name(first), _ => "#REF".to_string() } }
+    itab_first / itab_last are i16: a negative value becomes a huge usize, never a valid index *)
+Definition sheet_at (sheets : list (list N)) (itab : N) : option (list N) :=
+  if itab <? 32768 then nthN sheets itab else None.
 Definition sheet_name_xls (ixti : N) : list N :=
   match nthN (xe_xtis xenv) ixti with
-  | Some (_, first, _) =>
-      if first <? 32768 then
-        match nthN (xe_sheets xenv) first with
-        | Some sh => sh
-        | None => lit "#REF"
-        end
-      else lit "#REF"
+  | Some (_, first, last) =>
+      match sheet_at (xe_sheets xenv) first, sheet_at (xe_sheets xenv) last with
+      | Some a, Some b => if negb (first =? last) then quote_sheet_span a b else quote_sheet_name a
+      | Some a, None => quote_sheet_name a
+      | None, _ => lit "#REF"
+      end
   | None => lit "#REF"
   end.
 
@@ -508,6 +536,11 @@ Definition xls_step (ptg : N) (rgce : list N) (s : pstate) : outcome (list N * p
           do r <- drop 8 rgce;
           Ok (r, (length buf :: st, b2))
       end
+  (* PtgMemArea / PtgMemErr / PtgMemNoMem (4 bytes + cce) and PtgMemFunc (cce) in front of an expression
+     made with the reference operators: skipped, the expression follows as ordinary tokens (commit
+     "fix: xls formulas using the union, intersection or range operator were unreadable") *)
+  | 0x26 | 0x46 | 0x66 | 0x27 | 0x47 | 0x67 | 0x28 | 0x48 | 0x68 => do r <- drop 6 rgce; Ok (r, s)
+  | 0x29 | 0x49 | 0x69 => do r <- drop 2 rgce; Ok (r, s)
   | 0x39 | 0x59 => arm_push_text (lit "[PtgNameX]") 6 rgce s
   | _ => Err E_UNRECOGNIZED
   end.
@@ -524,6 +557,8 @@ Definition xls_expected (ptg : N) : nat :=
   | 0x1F | 0x25 | 0x45 | 0x65 | 0x2B | 0x4B | 0x6B | 0x2D | 0x4D | 0x6D => 8%nat
   | 0x20 | 0x40 | 0x60 => 7%nat
   | 0x22 | 0x42 | 0x62 => 3%nat
+  | 0x26 | 0x46 | 0x66 | 0x27 | 0x47 | 0x67 | 0x28 | 0x48 | 0x68 => 6%nat
+  | 0x29 | 0x49 | 0x69 => 2%nat
   | _ => 0%nat
   end.
 
@@ -728,6 +763,10 @@ Definition xlsb_step (sub : list N -> outcome (list N)) (ptg : N) (rgce : list N
           do r <- drop 12 rgce;
           Ok (r, (length buf :: st, b2))
       end
+  (* PtgMemArea / PtgMemErr / PtgMemNoMem: skipped, the expression follows as ordinary tokens (commit
+     "fix: one xlsb formula using the union or intersection operator made every formula of its sheet
+     unreadable") *)
+  | 0x26 | 0x46 | 0x66 | 0x27 | 0x47 | 0x67 | 0x28 | 0x48 | 0x68 => do r <- drop 6 rgce; Ok (r, s)
   | 0x29 | 0x49 | 0x69 =>                                            (* PtgMemFunc *)
       do cce <- u16_at rgce 0;
       do r2 <- drop 2 rgce;
@@ -757,6 +796,7 @@ Definition xlsb_expected (ptg : N) : nat :=
   | 0x1F => 8%nat
   | 0x22 | 0x42 | 0x62 => 3%nat
   | 0x24 | 0x44 | 0x64 | 0x2A | 0x4A | 0x6A | 0x39 | 0x59 | 0x79 | 0x2C | 0x4C | 0x6C => 6%nat
+  | 0x26 | 0x46 | 0x66 | 0x27 | 0x47 | 0x67 | 0x28 | 0x48 | 0x68 => 6%nat
   | 0x25 | 0x45 | 0x65 | 0x2B | 0x4B | 0x6B | 0x2D | 0x4D | 0x6D => 12%nat
   | _ => 0%nat
   end.
@@ -800,6 +840,11 @@ Definition cls_ptg (r v a : N) (k : cls) : N := match k with CRef => r | CVal =>
 Record cref := { cr_row : N; cr_col : N; cr_row_rel : bool; cr_col_rel : bool }.
 
 Inductive unop := UPlus | UMinus | UPercent.
+(* the four tokens Excel puts in front of every sub-expression built with the reference operators
+   union ',', intersection ' ' and range ':' (formula grammar: mem-area-expression; MS-XLS 2.5.198.70-73,
+   MS-XLSB 2.5.97.58-61): PtgMemArea (the value is a known list of areas, kept in rgcb), PtgMemErr (it is an
+   error), PtgMemNoMem (it was not cached), PtgMemFunc (it is not constant) *)
+Inductive memkind := MArea | MErr | MNoMem | MFunc.
 
 Inductive expr :=
 | ERef (k : cls) (a : cref)
@@ -830,7 +875,17 @@ Inductive expr :=
    sheets have 256 columns; xlsb — rows: 32 bits, columns: 14 bits), an absolute component the row /
    column itself *)
 | ERefN (k : cls) (a : cref)
-| EAreaN (k : cls) (a b : cref).
+| EAreaN (k : cls) (a b : cref)
+(* a mem token in front of the tokens of [a]: ptg, for the first three kinds 4 bytes [w] (unused; the
+   error code of PtgMemErr in its low byte), then cce = the size of the encoding of [a].  No text of its own. *)
+| EMem (k : cls) (m : memkind) (w : N) (a : expr)
+(* references that no longer exist (their row, column or sheet was deleted): PtgRefErr 2A, PtgAreaErr 2B
+   (#REF!), PtgRefErr3d 3C, PtgAreaErr3d 3D (Sheet!#REF!).  [junk]: the unused bytes that stand where
+   the location was (as many as the location took) *)
+| ERefErr (k : cls) (junk : list N)
+| EAreaErr (k : cls) (junk : list N)
+| ERefErr3d (k : cls) (ixti : N) (junk : list N)
+| EAreaErr3d (k : cls) (ixti : N) (junk : list N).
 
 (* ---------- rendering (the A1 text) ---------- *)
 (* operator tokens of MS-XLS 2.5.198: PtgAdd 03 .. PtgConcat 08, PtgLt 09, PtgLe 0A, PtgEq 0B,
@@ -938,17 +993,25 @@ Fixpoint render (e : expr) : list N :=
   | EAttrChoose _ a => render a
   | ERefN _ a => render_cref (ref_n a)
   | EAreaN _ a b => render_cref (ref_n a) ++ [ch_colon] ++ render_cref (ref_n b)
+  | EMem _ _ _ a => render a
+  | ERefErr _ _ | EAreaErr _ _ => lit "#REF!"
+  | ERefErr3d _ ix _ | EAreaErr3d _ ix _ => sheet_of ix ++ [ch_bang] ++ lit "#REF!"
   end.
 End Render.
 
 (* spec-level sheet / name resolution *)
+(* the sheet part of a 3-D reference through XTI [ixti] (MS-XLS 2.5.277 XTI: itabFirst, itabLast):
+   one sheet — its name as [sheet_text] writes it —, or the span First:Last ([span_text]) when the two
+   differ; itab >= 0x8000 is a negative i16 (-1 = deleted sheet, -2 = workbook-level), out of range: #REF.
+   (iSupBook is not looked at here: see [known_extern] for XTIs of other workbooks.) *)
 Definition spec_sheet_xls (env : xls_env) (ixti : N) : list N :=
   match nthN (xe_xtis env) ixti with
-  | Some (_, first, _) =>
-      (* itabFirst >= 0x8000 is a negative i16: -1 = deleted sheet, -2 = workbook-level *)
-      if first <? 32768 then
-        match nthN (xe_sheets env) first with Some sh => sh | None => lit "#REF" end
-      else lit "#REF"
+  | Some (_, first, last) =>
+      match sheet_at (xe_sheets env) first, sheet_at (xe_sheets env) last with
+      | Some a, Some b => if first =? last then sheet_text a else span_text a b
+      | Some a, None => sheet_text a
+      | None, _ => lit "#REF"
+      end
   | None => lit "#REF"
   end.
 Definition spec_name (names : list (list N)) (idx : N) : list N :=
@@ -961,9 +1024,94 @@ Definition render_xls (show_f64 : N -> list N) (env : xls_env) : expr -> list N 
 Definition render_xlsb (show_f64 : N -> list N) (env : xlsb_env) : expr -> list N :=
   render show_f64 (spec_sheet_xlsb env) (spec_name (be_names env)) (translate_b (be_base env)).
 
+(* ---------- supporting links: what an XTI points INTO (known finding K_EXTERN_BOOK) ----------
+   An XTI is (iSupBook, itabFirst, itabLast): iSupBook is an index into the workbook's list of supporting
+   links — xls: the SupBook records of the globals substream in record order (MS-XLS 2.4.271: cch = 0x0401
+   this workbook, cch = 0x3A01 the add-in functions, else another workbook: its path and the names of its
+   sheets); xlsb: the records between BrtBeginExternals and BrtExternSheet in record order (MS-XLSB 2.1.7.53:
+   BrtSupSelf this workbook, BrtSupSame the sheet using it, BrtSupAddin the add-in functions, BrtSupBookSrc
+   another workbook, the names of its sheets in the BrtSupTabs of its externalLink part).  itabFirst and
+   itabLast are sheets of THIS workbook exactly when the link is SupSelf / SupSame; through a link to
+   another workbook they index that workbook's sheet names. *)
+Inductive suplink :=
+| SupSelf
+| SupSame
+| SupAddin
+| SupExt (tabs : list (list N)).     (* another workbook: the names of its sheets *)
+Definition link_local (l : suplink) : bool := match l with SupSelf | SupSame => true | _ => false end.
+Definition link_ext (l : suplink) : bool := match l with SupExt _ => true | _ => false end.
+Definition xti_local (links : list suplink) (x : N * N * N) : bool :=
+  match nthN links (fst (fst x)) with Some l => link_local l | None => false end.
+
+(* SPEC: a reference into another workbook is written with the workbook's number in brackets in front of
+   the sheet — [1]Sheet1!A1, '[1]My Sheet'!A1, [2]First:Last!A1 — the number counting the links to other
+   workbooks in their order (ECMA-376 Part 1 18.17.2.3 external references; it is the text an xlsx file
+   stores for the same formula, which calamine's xlsx reader hands out unchanged) *)
+Definition ext_no (links : list suplink) (isup : N) : N :=
+  N.of_nat (length (filter link_ext (firstn (S (N.to_nat isup)) links))).
+Definition ext_prefix (k : N) : list N := [91] ++ dec k ++ [93].
+Definition ext_sheet_text (k : N) (a : list N) : list N :=
+  if bare_sheet a then ext_prefix k ++ a else [ch_apos] ++ ext_prefix k ++ double_apos a ++ [ch_apos].
+Definition ext_span_text (k : N) (a b : list N) : list N :=
+  if bare_sheet a && bare_sheet b then ext_prefix k ++ a ++ [ch_colon] ++ b
+  else [ch_apos] ++ ext_prefix k ++ double_apos a ++ [ch_colon] ++ double_apos b ++ [ch_apos].
+
+(* the sheet part of a 3-D reference through XTI [x], given the links; [local]: its text when the XTI points
+   into this workbook; [tab_at]: the format's reading of a sheet index (i16 / i32).  A link that has no
+   sheets (add-in functions) or does not exist: #REF *)
+Definition sheet_through_link (links : list suplink) (tab_at : list (list N) -> N -> option (list N))
+  (local : list N) (x : N * N * N) : list N :=
+  match nthN links (fst (fst x)) with
+  | Some (SupExt tabs) =>
+      let k := ext_no links (fst (fst x)) in
+      match tab_at tabs (snd (fst x)), tab_at tabs (snd x) with
+      | Some a, Some b => if snd (fst x) =? snd x then ext_sheet_text k a else ext_span_text k a b
+      | Some a, None => ext_sheet_text k a
+      | None, _ => lit "#REF"
+      end
+  | Some SupSelf | Some SupSame => local
+  | Some SupAddin | None => lit "#REF"
+  end.
+
+(* the XTIs an expression goes through *)
+Fixpoint ixtis (e : expr) : list N :=
+  match e with
+  | ERef3d _ ix _ | EArea3d _ ix _ _ | ERefErr3d _ ix _ | EAreaErr3d _ ix _ => [ix]
+  | EUn _ a | EParen a | ESum a | EAttrSkip _ _ a | EAttrPost _ _ a | EAttrChoose _ a | EMem _ _ _ a => ixtis a
+  | EBin _ a b => ixtis a ++ ixtis b
+  | EFunc _ _ args | EFuncVar _ _ args => flat_map ixtis args
+  | _ => []
+  end.
+
+(* KNOWN FINDING K_EXTERN_BOOK (both decoders): iSupBook is never read — a reference into another workbook is
+   written with the name of the sheet of THIS workbook that happens to have the same index.  The class: the
+   expression goes through an XTI of the table whose link is not this workbook.  (An index outside the XTI table
+   is #REF / an error whatever the links are.) *)
+Definition K_EXTERN_BOOK : N := 1.
+Definition known_extern (links : list suplink) (xtis : list (N * N * N)) (e : expr) : bool :=
+  existsb (fun ix => match nthN xtis ix with Some x => negb (xti_local links x) | None => false end) (ixtis e).
+Definition known_C14 (links : list suplink) (xtis : list (N * N * N)) (e : expr) : option N :=
+  if known_extern links xtis e then Some K_EXTERN_BOOK else None.
+
+(* xls: the full spec of the sheet part — [spec_sheet_xls] for the XTIs of this workbook *)
+Definition spec_sheet_xls_links (links : list suplink) (env : xls_env) (ixti : N) : list N :=
+  match nthN (xe_xtis env) ixti with
+  | Some x => sheet_through_link links sheet_at (spec_sheet_xls env ixti) x
+  | None => lit "#REF"
+  end.
+Definition render_xls_links (show_f64 : N -> list N) (links : list suplink) (env : xls_env) : expr -> list N :=
+  render show_f64 (spec_sheet_xls_links links env) (spec_name (xe_names env)) (translate (xe_base env)).
+
 (* ---------- encoders ---------- *)
 Definition unop_ptg (op : unop) : N := match op with UPlus => 0x12 | UMinus => 0x13 | UPercent => 0x14 end.
 Definition cfield (a : cref) : N := col_field (cr_col a) (cr_row_rel a) (cr_col_rel a).
+Definition mem_ptg (m : memkind) (k : cls) : N :=
+  match m with
+  | MArea => cls_ptg 0x26 0x46 0x66 k | MErr => cls_ptg 0x27 0x47 0x67 k
+  | MNoMem => cls_ptg 0x28 0x48 0x68 k | MFunc => cls_ptg 0x29 0x49 0x69 k
+  end.
+Definition mem_head (m : memkind) (w : N) : list N :=
+  match m with MFunc => [] | _ => le 4 w end.
 
 Section Encode.
 Variable rowbytes : nat.                        (* 2 for xls, 4 for xlsb *)
@@ -998,6 +1146,11 @@ Fixpoint encode (e : expr) : list N :=
   | ERefN k a => [cls_ptg 0x2C 0x4C 0x6C k] ++ le rowbytes (cr_row a) ++ le 2 (cfield a)
   | EAreaN k a b => [cls_ptg 0x2D 0x4D 0x6D k] ++ le rowbytes (cr_row a) ++ le rowbytes (cr_row b)
                       ++ le 2 (cfield a) ++ le 2 (cfield b)
+  | EMem k m w a => [mem_ptg m k] ++ mem_head m w ++ le 2 (N.of_nat (length (encode a))) ++ encode a
+  | ERefErr k junk => [cls_ptg 0x2A 0x4A 0x6A k] ++ junk
+  | EAreaErr k junk => [cls_ptg 0x2B 0x4B 0x6B k] ++ junk
+  | ERefErr3d k ix junk => [cls_ptg 0x3C 0x5C 0x7C k] ++ le 2 ix ++ junk
+  | EAreaErr3d k ix junk => [cls_ptg 0x3D 0x5D 0x7D k] ++ le 2 ix ++ junk
   end.
 End Encode.
 
@@ -1050,6 +1203,8 @@ Variable wf_ixti : N -> bool.
 Variable nnames : nat.
 Variable wf_str : bool -> list N -> bool.
 Variable allow_n : bool.                        (* PtgRefN / PtgAreaN: only with a base cell (shared formula) *)
+Variable enc_len : expr -> nat.                 (* size of the encoding (the cce of a mem token) *)
+Variable rowbytes : nat.                        (* size of a row field: 2 (xls), 4 (xlsb) *)
 
 Fixpoint wf (e : expr) : bool :=
   match e with
@@ -1083,6 +1238,11 @@ Fixpoint wf (e : expr) : bool :=
       forallb (fun o => o <? 65536) offs && wf a
   | ERefN _ a => allow_n && wf_cref rowlim a
   | EAreaN _ a b => allow_n && wf_cref rowlim a && wf_cref rowlim b
+  | EMem _ _ w a => (w <? 4294967296) && (N.of_nat (enc_len a) <? 65536) && wf a
+  | ERefErr _ junk => (length junk =? rowbytes + 2)%nat
+  | EAreaErr _ junk => (length junk =? 2 * rowbytes + 4)%nat
+  | ERefErr3d _ ix junk => (ix <? 65536) && wf_ixti ix && (length junk =? rowbytes + 2)%nat
+  | EAreaErr3d _ ix junk => (ix <? 65536) && wf_ixti ix && (length junk =? 2 * rowbytes + 4)%nat
   end.
 End Wf.
 
@@ -1094,10 +1254,21 @@ Definition wf_str_xlsb (_ : bool) (s : list N) : bool :=
 
 Definition wf_xls (env : xls_env) : expr -> bool :=
   wf 65536 (fun _ => true) (length (xe_names env)) wf_str_xls
-     (match xe_base env with Some _ => true | None => false end).
-Definition wf_xlsb (env : xlsb_env) : expr -> bool :=
+     (match xe_base env with Some _ => true | None => false end) (fun a => length (encode_xls a)) 2.
+(* nesting of PtgMemFunc: the xlsb decoder parses its sub-expression by a nested call and refuses more
+   than MAX_FORMULA_DEPTH = 64 levels (Excel itself nests at most 64 levels) *)
+Fixpoint mdepth (e : expr) : nat :=
+  match e with
+  | EMem _ MFunc _ a => S (mdepth a)
+  | EMem _ _ _ a | EUn _ a | EParen a | ESum a | EAttrSkip _ _ a | EAttrPost _ _ a | EAttrChoose _ a => mdepth a
+  | EBin _ a b => Nat.max (mdepth a) (mdepth b)
+  | EFunc _ _ args | EFuncVar _ _ args => fold_right (fun a acc => Nat.max (mdepth a) acc) O args
+  | _ => O
+  end.
+Definition wf_xlsb_core (env : xlsb_env) : expr -> bool :=
   wf 4294967296 (fun ix => ix <? N.of_nat (length (be_sheets env))) (length (be_names env)) wf_str_xlsb
-     (match be_base env with Some _ => true | None => false end).
+     (match be_base env with Some _ => true | None => false end) (fun a => length (encode_xlsb a)) 4.
+Definition wf_xlsb (env : xlsb_env) (e : expr) : bool := wf_xlsb_core env e && (mdepth e <=? 64)%nat.
 
 (* Known classes: none left.  K_STR_WIDE (F21) was repaired by commit a3d91ee and K_STR_QUOTE by
    6ef7f34; their witnesses are corpus cases of tools/props/c14.py that must satisfy the spec. *)
@@ -1105,8 +1276,29 @@ Definition wf_xlsb (env : xlsb_env) : expr -> bool :=
 (* number of tokens of the encoding = fuel the decoder loop consumes *)
 Fixpoint ntok (e : expr) : nat :=
   match e with
-  | EUn _ a | EParen a | ESum a | EAttrSkip _ _ a | EAttrPost _ _ a | EAttrChoose _ a => S (ntok a)
+  | EUn _ a | EParen a | ESum a | EAttrSkip _ _ a | EAttrPost _ _ a | EAttrChoose _ a | EMem _ _ _ a => S (ntok a)
   | EBin _ a b => S (ntok a + ntok b)
   | EFunc _ _ args | EFuncVar _ _ args => S (fold_right (fun a acc => ntok a + acc)%nat O args)
   | _ => 1
+  end.
+
+(* the same for the xlsb decoder's own loop: the tokens behind a PtgMemFunc are consumed by the nested
+   call, not by the loop that meets the token *)
+Fixpoint ntokb (e : expr) : nat :=
+  match e with
+  | EMem _ MFunc _ _ => 1
+  | EUn _ a | EParen a | ESum a | EAttrSkip _ _ a | EAttrPost _ _ a | EAttrChoose _ a | EMem _ _ _ a => S (ntokb a)
+  | EBin _ a b => S (ntokb a + ntokb b)
+  | EFunc _ _ args | EFuncVar _ _ args => S (fold_right (fun a acc => ntokb a + acc)%nat O args)
+  | _ => 1
+  end.
+(* fuel the nested calls need on top of what the loop itself still has to consume: the call made at a
+   PtgMemFunc runs on the fuel that is left for the rest of the enclosing loop *)
+Fixpoint need (e : expr) : nat :=
+  match e with
+  | EMem _ MFunc _ a => Nat.max (S (ntokb a)) (ntokb a + need a)
+  | EUn _ a | EParen a | ESum a | EAttrSkip _ _ a | EAttrPost _ _ a | EAttrChoose _ a | EMem _ _ _ a => need a
+  | EBin _ a b => Nat.max (need a) (need b)
+  | EFunc _ _ args | EFuncVar _ _ args => fold_right (fun a acc => Nat.max (need a) acc) O args
+  | _ => O
   end.
